@@ -8,9 +8,11 @@ QBin == { <<>>, <<0>>, <<255, 0, 10>> }
 QTxt == { <<>>, <<98, 10>>, <<13, 10>>, <<99, 13>> }
 TBin == { <<>>, <<0>>, <<255, 0, 10>>, <<97, 98, 99>> }
 TTxt == { <<>>, <<97>>, <<98, 10>>, <<13, 10>>, <<99, 13>>, <<10>> }
-\* sizes around the 255-byte line chunk and the 65536-byte copy block
-BBin == { <<>>, <<0, 1254>>, <<1255, 10, 0>>, <<3000, 65535>>, <<1000, 65536, 255>>, <<1000, 65535, 3000, 2>> }
-BTxt == { <<>>, <<1253, 10>>, <<1254, 13, 10, 98>>, <<1255>>, <<13, 10, 3000, 509>>, <<1000, 65536, 10, 98>> }
+\* sizes around the 65536-byte copy block (A(n) / B(n): run of n bytes 'a' (n < 1000) / 'b')
+A(n) == 1000 + n
+B(n) == 2000 + n
+BigQ == { <<B(65535), 0>>, <<10, B(65535), 255>>, <<B(65536), A(1)>> }
+BigT == BigQ \cup { <<B(65536)>>, <<A(255), 13, 10, B(131072), 10>>, <<0, B(199999)>> }
 NoChunks == {}
 \* scalar values at the encoding-length boundaries of UTF-8 and UTF-16
 Scalars == {10, 13, 65, 127, 128, 233, 2047, 2048, 8364, 55295, 57344, 65533, 65535, 65536, 128512, 1114111}
